@@ -1,4 +1,5 @@
 import Pyxv.Proofs.ItextLemmas
+import Pyxv.Proofs.ItextIds
 /-!
 # C07 — every itext reference resolves in every language
 
@@ -317,6 +318,37 @@ theorem holds_unconditional (x : Survey) :
     exact ⟨langs_nodup x, ids_nodup x⟩
   · exact defaultOk_out x
 
+/-! ### rendered ids (injectivity lemmas in `Proofs/ItextIds.lean`) -/
+
+/-- **No two choice items share an `itextId`**: the ids `list-idx` written into the choice instances are
+pairwise distinct strings whenever the list names are (they are dict keys of `Survey.choices`) — for any
+list names, including ones that contain `-` or end in digits (`a-1` item 0 vs `a` item 10). -/
+theorem itemIds_nodup (x : Survey) (h : (x.lists.map (·.name)).Nodup) : (out x).itemIds.Nodup := by
+  unfold out itemIds
+  apply nodup_flatMap_listIds
+  exact List.Nodup.sublist (List.Sublist.map _ List.filter_sublist) h
+
+/-- **An id names one source**: a text id referenced by a choice item is never the id of an element's label,
+hint or bind message, two element ids coincide only for the same xpath and display element, two choice ids
+only for the same list and index. -/
+theorem rendered_ids_injective :
+    (∀ (n m : Str) (i j : Nat), choiceId n i = choiceId m j → n = m ∧ i = j) ∧
+    (∀ (x y : Str) (d e : String), d ∈ displays → e ∈ displays → path x d = path y e → x = y ∧ d = e) ∧
+    (∀ (n : Str) (i : Nat) (x : Str) (d : String), d ∈ displays → choiceId n i ≠ path x d) :=
+  ⟨fun _ _ _ _ h => choiceId_inj h, fun _ _ _ _ hd he h => path_inj hd he h,
+   fun n i x _ hd => choiceId_ne_path n i x hd⟩
+
+/-- non-vacuity: adversarial names (`a-1` item 0 / `a` item 10; a question named `q:jr` has
+`/data/q:jr:label`, not a message id of `q`) -/
+example : choiceId "a-1".toList 0 ≠ choiceId "a".toList 10 ∧
+    path "/data/q:jr".toList "label" ≠ path "/data/q".toList "jr:constraintMsg" ∧
+    "jr:noAppErrorString" ∈ displays := by
+  refine ⟨?_, ?_, by decide⟩
+  · intro h; have := (choiceId_inj h).2; omega
+  · intro h
+    have := (path_inj (by decide) (by decide) h).2
+    exact absurd this (by decide)
+
 /-! ### non-vacuity, the F6 witness, and facts about the regenerated tables -/
 
 def q (cls : Cls) (name : String) (label hint guidance : Txt) : ElemD :=
@@ -348,6 +380,11 @@ example :
       ((out x).translations.map (·.lang)).contains x.defaultLanguage = true ∧
       (match run x with | .ok _ => true | _ => false) = true ∧
       holds (obsOf x.defaultLanguage (out x)) = true := by decide +kernel
+
+/-- non-vacuity of `itemIds_nodup` -/
+example : (out (ex1 (tr [("en", "B")]))).itemIds.length = 2 ∧
+    ((ex1 (tr [("en", "B")])).lists.map (·.name)).Nodup := by
+  refine ⟨by decide +kernel, by decide +kernel⟩
 
 /-- **F6 repaired**: the same survey with the second choice unlabeled (the former witness of the
 defect) now satisfies the property: `c-1` is padded into every translation. -/
